@@ -74,7 +74,7 @@ def rsAfter (cfg : Cfg) (rs : RS) (payload : Bytes) : RS :=
 
 /-- standard path: a well-formed transfer that answers the request is taken in whole -/
 theorem absorb_piece (cfg : Cfg) (hr : cfg.rigol = false) (rs : RS) (p : Piece) (hp : p.payload.length < 4294967296)
-    (hok : cfg.checkHdr = true → p.tagOk rs.last) :
+    (hok : cfg.checkHdr = true → cfg.advantest = false → p.tagOk rs.last) :
     absorb cfg rs p.bytes = .ok (rs.readData ++ p.payload, p.eom, p.payload.length, p.payload) := by
   simp only [absorb, hr, Bool.false_and, Bool.false_eq_true, if_false, unpackResp_piece p hp]
   have hcond : (cfg.checkHdr && !cfg.advantest
@@ -82,8 +82,11 @@ theorem absorb_piece (cfg : Cfg) (hr : cfg.rigol = false) (rs : RS) (p : Piece) 
     cases hc : cfg.checkHdr with
     | false => simp
     | true =>
-      obtain ⟨h1, h2, h3⟩ := hok hc
-      simp [h1, h2, h3]
+      cases hadv : cfg.advantest with
+      | true => simp
+      | false =>
+        obtain ⟨h1, h2, h3⟩ := hok hc hadv
+        simp [h1, h2, h3]
   simp only [hcond, Bool.false_eq_true, if_false, Nat.le_refl, ge_iff_le, if_true, Piece.eom]
 
 /-- one loop iteration on a well-formed transfer, no quirks, `num ≤ 0` (read everything) -/
@@ -96,7 +99,7 @@ theorem readLoop_piece (cfg : Cfg) (hr : cfg.rigol = false) (ha : cfg.advantest 
        else readLoop cfg (rsAfter cfg rs p.payload) script) := by
   have hn : ¬ (rs.num > 0) := by omega
   rw [readLoop]
-  have hab := absorb_piece cfg hr (rsReq cfg rs) p hp hok
+  have hab := absorb_piece cfg hr (rsReq cfg rs) p hp (fun hc _ => hok hc)
   simp only [reqStep_ok cfg rs (Or.inl hr) hlen, hab, ha, Bool.false_eq_true, if_false]
   simp only [rsReq, hn, false_and, if_false, rsAfter]
 
@@ -178,7 +181,7 @@ theorem readLoop_piece_num (cfg : Cfg) (hr : cfg.rigol = false) (ha : cfg.advant
         { rs := rsNum (rsAfter cfg rs p.payload) p.payload.length, left := script, res := .ok (rs.readData ++ p.payload) }
        else readLoop cfg (rsNum (rsAfter cfg rs p.payload) p.payload.length) script) := by
   rw [readLoop]
-  have hab := absorb_piece cfg hr (rsReq cfg rs) p hp hok
+  have hab := absorb_piece cfg hr (rsReq cfg rs) p hp (fun hc _ => hok hc)
   simp only [reqStep_ok cfg rs (Or.inl hr) hlen, hab, ha, Bool.false_eq_true, if_false]
   simp only [rsReq, rsAfter, rsNum]
   by_cases hn : rs.num > 0
@@ -281,6 +284,9 @@ theorem readLoop_refines_hostSpec (cfg : Cfg) (hr : cfg.rigol = false) (ha : cfg
     | ioErr =>
       rw [readLoop]
       simp [reqStep_ok cfg rs (Or.inl hr) hlen, hostSpec, Except.toOption]
+    | timeout =>
+      rw [readLoop]
+      simp [reqStep_ok cfg rs (Or.inl hr) hlen, hostSpec, Except.toOption]
     | data resp =>
       rw [readLoop]
       simp only [reqStep_ok cfg rs (Or.inl hr) hlen, absorb, hr, ha, Bool.false_and, Bool.false_eq_true, if_false,
@@ -297,11 +303,170 @@ theorem readLoop_refines_hostSpec (cfg : Cfg) (hr : cfg.rigol = false) (ha : cfg
           by_cases hc : ts ≤ d.length
           · by_cases he : a.toNat % 2 = 1
             · simp [hc, he, Except.toOption]
-            · have : ¬ (ts ≤ d.length ∧ a.toNat % 2 = 1) := by omega
-              simp only [hc, he, this, if_true, if_false, beq_iff_eq]
+            · simp only [hc, he, if_true, if_false, beq_iff_eq]
               exact ih _ (by simpa using hnum) (by simpa using hlen)
-          · have : ¬ (ts ≤ d.length ∧ a.toNat % 2 = 1) := by omega
-            simp only [hc, this, if_false, Bool.false_eq_true]
+          · simp only [hc, if_false, Bool.false_eq_true]
             exact ih _ (by simpa using hnum) (by simpa using hlen)
+
+/-! ### quirk paths -/
+
+/-- Advantest quirk: exactly one transfer is read, whatever its EOM bit says -/
+theorem readLoop_advantest (cfg : Cfg) (hr : cfg.rigol = false) (ha : cfg.advantest = true) (rs : RS)
+    (hlen : rs.readLen < 4294967296) (p : Piece) (hp : p.payload.length < 4294967296) (script : List Ev) :
+    (readLoop cfg rs (.data p.bytes :: script)).res = .ok (rs.readData ++ p.payload)
+    ∧ (readLoop cfg rs (.data p.bytes :: script)).left = script
+    ∧ (readLoop cfg rs (.data p.bytes :: script)).rs.reqs = rs.reqs ++ [inRequest (nextTag rs.last) rs.readLen cfg.termChar] := by
+  rw [readLoop]
+  have hab := absorb_piece cfg hr (rsReq cfg rs) p hp (fun _ h => by simp [ha] at h)
+  simp only [reqStep_ok cfg rs (Or.inl hr) hlen, hab, ha, if_true]
+  simp [rsReq]
+
+/-- first packet of a RIGOL device: a header whose TransferSize is the size of the whole message, then the first bytes -/
+def rigolFirst (h0 h1 h2 h3 attr r1 r2 r3 : UInt8) (total : Nat) (body : Bytes) : Bytes :=
+  h0 :: h1 :: h2 :: h3 :: (le32 total ++ (attr :: r1 :: r2 :: r3 :: body))
+
+theorem unpackResp_rigolFirst (h0 h1 h2 h3 attr r1 r2 r3 : UInt8) (total : Nat) (body : Bytes) (h : total < 4294967296) :
+    unpackResp (rigolFirst h0 h1 h2 h3 attr r1 r2 r3 total body) = some (h0, h1, h2, total, attr, body.take total) := by
+  simp [rigolFirst, le32, unpackResp, unLe32_le32 _ h]
+
+/-- RIGOL: a header-less continuation packet -/
+theorem readLoop_rigol_cont (cfg : Cfg) (hr : cfg.rigol = true) (ha : cfg.advantest = false) (rs : RS)
+    (hne : rs.readData ≠ []) (hnum : rs.num ≤ 0) (c : Bytes) (script : List Ev) :
+    readLoop cfg rs (.data c :: script) =
+      (if (rs.readData ++ c).length ≥ rs.ts then
+        { rs := { rs with sizes := rs.sizes ++ [rs.readLen + HEADER_SIZE + 3], readData := (rs.readData ++ c).take rs.ts },
+          left := script, res := .ok ((rs.readData ++ c).take rs.ts) }
+       else readLoop cfg { rs with sizes := rs.sizes ++ [rs.readLen + HEADER_SIZE + 3], readData := rs.readData ++ c } script) := by
+  have hn : ¬ (rs.num > 0) := by omega
+  have hemp : rs.readData.isEmpty = false := by cases h : rs.readData <;> simp_all
+  rw [readLoop]
+  simp only [reqStep, hr, hemp, Bool.not_true, Bool.or_false, Bool.false_eq_true, if_false, absorb, Bool.not_false,
+    Bool.and_true, if_true]
+  by_cases h : (rs.readData ++ c).length ≥ rs.ts
+  · simp only [h, if_true, ha, Bool.false_eq_true, if_false, hn, false_and]
+  · simp only [h, if_false, ha, Bool.false_eq_true, hn, false_and]
+
+theorem readLoop_rigol_conts (cfg : Cfg) (hr : cfg.rigol = true) (ha : cfg.advantest = false) :
+    ∀ (conts : List Bytes) (rs : RS) (extra : List Ev), rs.readData ≠ [] → rs.num ≤ 0 →
+      rs.readData.length < rs.ts →                              -- the loop is still waiting for bytes
+      (rs.readData ++ conts.flatten).length ≥ rs.ts →           -- and the device delivers them
+      (readLoop cfg rs (conts.map Ev.data ++ extra)).res = .ok ((rs.readData ++ conts.flatten).take rs.ts)
+      ∧ (readLoop cfg rs (conts.map Ev.data ++ extra)).rs.reqs = rs.reqs
+      ∧ (readLoop cfg rs (conts.map Ev.data ++ extra)).rs.last = rs.last := by
+  intro conts
+  induction conts with
+  | nil =>
+    intro rs extra _ _ hlt hge
+    simp only [List.flatten_nil, List.append_nil] at hge
+    omega
+  | cons c cs ih =>
+    intro rs extra hne hnum hlt hge
+    simp only [List.map_cons, List.cons_append]
+    rw [readLoop_rigol_cont cfg hr ha rs hne hnum c]
+    by_cases h : (rs.readData ++ c).length ≥ rs.ts
+    · rw [if_pos h]
+      have e : rs.readData ++ (c :: cs).flatten = (rs.readData ++ c) ++ cs.flatten := by simp
+      refine ⟨?_, rfl, rfl⟩
+      rw [e, List.take_append_of_le_length h]
+    · rw [if_neg h]
+      have := ih { rs with sizes := rs.sizes ++ [rs.readLen + HEADER_SIZE + 3], readData := rs.readData ++ c } extra
+        (by simp [hne]) hnum (by simpa using h) (by simpa [List.append_assoc] using hge)
+      simpa [List.append_assoc] using this
+
+/-- RIGOL: the first packet (the only one with a header); `T` is the message size the loop will wait for — the header's
+TransferSize, or what the IEEE-block sub-quirk reads from the data -/
+theorem readLoop_rigol_first (cfg : Cfg) (hr : cfg.rigol = true) (ha : cfg.advantest = false) (rs : RS)
+    (hemp : rs.readData = []) (hnum : rs.num ≤ 0) (hlen : rs.readLen < 4294967296)
+    (h0 h1 h2 h3 attr r1 r2 r3 : UInt8) (total : Nat) (body : Bytes) (htot : total < 4294967296)
+    (hok : cfg.checkHdr = true → h0.toNat = MSGID_REQUEST_DEV_DEP_MSG_IN ∧ h1.toNat = nextTag rs.last ∧ h2.toNat = invTag h1.toNat)
+    (T : Nat) (hsz : ieeeSize cfg (body.take total) total = .ok (T : Int)) (script : List Ev) :
+    readLoop cfg rs (.data (rigolFirst h0 h1 h2 h3 attr r1 r2 r3 total body) :: script) =
+      (if (body.take total).length ≥ T then
+        { rs := { rsReq cfg rs with readData := (body.take total).take T, ts := T, data := body.take total },
+          left := script, res := .ok ((body.take total).take T) }
+       else readLoop cfg { rsReq cfg rs with readData := body.take total, ts := T, data := body.take total } script) := by
+  have hn : ¬ (rs.num > 0) := by omega
+  rw [readLoop]
+  rw [reqStep_ok cfg rs (Or.inr hemp) hlen]
+  have hcond : (cfg.checkHdr && !cfg.advantest
+      && (h0.toNat != MSGID_REQUEST_DEV_DEP_MSG_IN || h1.toNat != (rsReq cfg rs).last || h2.toNat != invTag h1.toNat)) = false := by
+    cases hc : cfg.checkHdr with
+    | false => simp
+    | true =>
+      obtain ⟨e1, e2, e3⟩ := hok hc
+      simp [rsReq, e1, e2, e3]
+  have hemp' : (rsReq cfg rs).readData.isEmpty = true := by simp [rsReq, hemp]
+  have hrd : (rsReq cfg rs).readData = [] := by simp [rsReq, hemp]
+  simp only [absorb, hr, hemp', Bool.not_true, Bool.and_false, Bool.false_eq_true, if_false,
+    unpackResp_rigolFirst _ _ _ _ _ _ _ _ _ _ htot, hcond, if_true, hsz, hrd, List.nil_append]
+  have hnq : ¬ ((rsReq cfg rs).num > 0) := by simpa [rsReq] using hn
+  by_cases h : (body.take total).length ≥ T
+  · have h' : ((body.take total).length : Int) ≥ (T : Int) := by omega
+    have hT : (T : Int) ≥ 0 := by omega
+    have h2 : T ≤ min total body.length := by simpa using h
+    simp [h', h2, ha, hnq, sliceTo, hT]
+  · have h' : ¬ ((body.take total).length : Int) ≥ (T : Int) := by omega
+    have h2 : ¬ T ≤ min total body.length := by simpa using h
+    simp [h', h2, ha, hnq]
+
+/-- value of a string of decimal digits -/
+def decVal (ds : Bytes) : Nat := ds.foldl (fun acc d => acc * 10 + (d.toNat - 48)) 0
+
+theorem digitsU_digits : ∀ (ds : Bytes) (acc : Nat) (prev : Bool), (∀ x ∈ ds, isDigit x = true) → (prev = true ∨ ds ≠ []) →
+    digitsU acc prev ds = some (ds.foldl (fun a d => a * 10 + (d.toNat - 48)) acc) := by
+  intro ds
+  induction ds with
+  | nil => intro acc prev _ h; rcases h with h | h <;> simp_all [digitsU]
+  | cons c r ih =>
+    intro acc prev hall _
+    have hc := hall c (by simp)
+    simp only [digitsU, hc, if_true, List.foldl_cons]
+    exact ih _ true (fun x hx => hall x (by simp [hx])) (Or.inl rfl)
+
+theorem not_space_of_digit (x : UInt8) (h : isDigit x = true) : isSpace x = false := by
+  simp only [isDigit, Bool.and_eq_true, decide_eq_true_eq] at h
+  simp only [isSpace, Bool.or_eq_false_iff, Bool.and_eq_false_imp, decide_eq_true_eq, decide_eq_false_iff_not, beq_eq_false_iff_ne]
+  refine ⟨?_, by omega⟩
+  intro hx; rw [hx] at h; simp at h
+
+theorem dropWhile_space_digits (ds : Bytes) (h : ∀ x ∈ ds, isDigit x = true) : ds.dropWhile isSpace = ds := by
+  cases ds with
+  | nil => rfl
+  | cons c r => simp [List.dropWhile, not_space_of_digit c (h c (by simp))]
+
+theorem pyIntBytes_digits (ds : Bytes) (hne : ds ≠ []) (h : ∀ x ∈ ds, isDigit x = true) :
+    pyIntBytes ds = some (decVal ds : Int) := by
+  have h1 := dropWhile_space_digits ds h
+  have h2 : ds.reverse.dropWhile isSpace = ds.reverse := dropWhile_space_digits ds.reverse (by simpa using h)
+  simp only [pyIntBytes, h1, h2, List.reverse_reverse]
+  cases ds with
+  | nil => exact absurd rfl hne
+  | cons c r =>
+    have hc := h c (by simp)
+    simp only [isDigit, Bool.and_eq_true, decide_eq_true_eq] at hc
+    have h45 : c ≠ 45 := by intro hx; rw [hx] at hc; simp at hc
+    have h43 : c ≠ 43 := by intro hx; rw [hx] at hc; simp at hc
+    have := digitsU_digits (c :: r) 0 false h (Or.inr (by simp))
+    split
+    · rename_i heq; simp only [List.cons.injEq] at heq; exact absurd heq.1 h45
+    · rename_i heq; simp only [List.cons.injEq] at heq; exact absurd heq.1 h43
+    · simp [this, decVal]
+
+theorem ieeeSize_off (cfg : Cfg) (h : cfg.rigolIeee = false) (d : Bytes) (ts : Nat) : ieeeSize cfg d ts = .ok (ts : Int) := by
+  simp [ieeeSize, h]
+
+theorem ieeeSize_nohash (cfg : Cfg) (d : Bytes) (ts : Nat) (h : d.head? ≠ some 35) : ieeeSize cfg d ts = .ok (ts : Int) := by
+  have : (d.head? == some 35) = false := by simpa using h
+  simp [ieeeSize, this]
+
+theorem ieeeSize_block (cfg : Cfg) (h : cfg.rigolIeee = true) (k : UInt8) (ds rest : Bytes) (ts : Nat)
+    (hk1 : 49 ≤ k.toNat) (hk9 : k.toNat ≤ 57) (hlen : ds.length = k.toNat - 48) (hds : ∀ x ∈ ds, isDigit x = true) :
+    ieeeSize cfg (35 :: k :: (ds ++ rest)) ts = .ok ((decVal ds + (k.toNat - 48) + 2 : Nat) : Int) := by
+  have hne : ds ≠ [] := by intro e; rw [e] at hlen; simp at hlen; omega
+  have hkd : isDigit k = true := by simp [isDigit]; omega
+  have htake : (ds ++ rest).take (k.toNat - 48) = ds := by rw [← hlen]; simp
+  simp only [ieeeSize, h, List.head?_cons, beq_self_eq_true, Bool.and_self, if_true, hkd, List.drop_succ_cons,
+    List.drop_zero, htake, pyIntBytes_digits ds hne hds]
+  simp only [Int.natCast_add, Int.cast_ofNat_Int]
 
 end QmiModel.C15
